@@ -6,7 +6,7 @@ import ast
 import re
 
 from ..model import UNKNOWN, ClassRef, FuncRef, norm, walk_no_nested
-from ..rules import canon_guard
+from ..rules import canon_guard, canon_text, equiv, equiv_folded
 from .. import common, spec, flow, shape
 
 K = 'bitcoin.core.key.'
@@ -174,14 +174,14 @@ def rule_wif(ctx, repo):
         a_sec, a_comp = norm(kc[0].args[1]), kc[0].args[2]
         r.check(a_sec == 'self[0:32]', 'reader:secret', common.site_of(init, kc[0]), 'first 32 bytes', 'the secret is taken as `%s`' % a_sec)
         t = canon_guard(a_comp, repo, init.module)
-        if t == 'len(self) > 32 and self[32] == 1':
+        if equiv(t, 'len(self) > 32 and self[32] == 1'):
             r.ok('reader:compressed', common.site_of(init, kc[0]), 'byte 32 present and equal to 01')
         elif 'self[' in t:
             r.violated('reader:compressed', common.site_of(init, kc[0]), 'the compression flag is parsed as `%s`; the marker is the 33rd byte: len(self) > 32 and self[32] == 1 (a secret ending in 01 is not a marker)' % norm(a_comp))
         else:
             r.undecided('reader:compressed', common.site_of(init, kc[0]), 'compression flag parsed as `%s`' % norm(a_comp))
     gs = [(canon_guard(n.test, repo, init.module), n) for n in walk_no_nested(init.node) if isinstance(n, ast.If) and flow.always_raises(n.body)]
-    ok = any(g == "self.nVersion != bitcoin.params.BASE58_PREFIXES['SECRET_KEY']" for g, n in gs)
+    ok = any(g == canon_text("self.nVersion != bitcoin.params.BASE58_PREFIXES['SECRET_KEY']") for g, n in gs)
     exc = [norm(x.exc.func) for g, n in gs for x in n.body if isinstance(x, ast.Raise) and isinstance(x.exc, ast.Call)]
     r.check(ok and exc == ['CBitcoinSecretError'], 'reader:version', init.site, 'another chain\'s WIF is refused with CBitcoinSecretError', 'version check is %s / %s' % ([g for g, n in gs], exc))
     ck = repo.get_function(W + 'CKey.__init__')
